@@ -59,6 +59,7 @@ func checkC10(c *Ctx) {
 	c10R5(c, info)
 	c10R6(c, info)
 	c10R7(c, info)
+	c10R8(c, info)
 	c10Fixture(c)
 }
 
@@ -418,6 +419,63 @@ func c10R6(c *Ctx, info *effectsInfo) {
 			r.OK(ruleG, key, c.Prog.Rel(g.Pos()), "never written after init", "no store outside package initialisation", false)
 		}
 	}
+}
+
+// ---------------------------------------------------------------------------------------------
+// R8 FACTORIES
+
+// c10R8: the decoders obtain the value they decode a command into from a factory — a function literal without
+// parameters, kept in a registry (`func() MACCommandPayload { return &LinkADRReqPayload{} }`). Two decoded frames share
+// no state only if every call of a factory returns memory allocated by that call: a literal that returns a captured
+// or package-level object hands the same object to every frame.
+func c10R8(c *Ctx, info *effectsInfo) {
+	const rule = "R8.factories"
+	r := c.Run
+	r.Rule(rule, "every parameterless function literal that returns a pointer or interface value (the payload factories of the command registries) returns memory that is fresh per call and reaches no captured or package-level variable")
+	for _, f := range info.Funcs {
+		if f.Parent() == nil || f.Signature.Params().Len() != 0 || f.Signature.Recv() != nil || f.Signature.Results().Len() != 1 || f.Blocks == nil {
+			continue
+		}
+		rt := f.Signature.Results().At(0).Type()
+		switch rt.Underlying().(type) {
+		case *types.Pointer, *types.Interface:
+		default:
+			continue
+		}
+		if isErrorType(rt) {
+			continue
+		}
+		s := info.A.Sums[f]
+		if s == nil || len(s.RetReach) == 0 {
+			continue
+		}
+		key := funcKey(f)
+		want := "reach(result) ⊆ {Fresh}"
+		var shared []string
+		for _, e := range s.RetReach[0].Sorted() {
+			if e != "F" {
+				shared = append(shared, e)
+			}
+		}
+		for _, e := range s.RetLoc[0].Sorted() {
+			if e != "F" {
+				shared = append(shared, "loc:"+e)
+			}
+		}
+		switch {
+		case len(shared) > 0:
+			r.Bad(rule, key, c.Prog.Rel(f.Pos()), want, "the returned value reaches "+strings.Join(shared, ",")+" (X: a variable captured from the enclosing function): every call hands out the same object")
+		case !s.RetReach[0].Has("F") && !s.RetLoc[0].Has("F"):
+			r.OK(rule, key, c.Prog.Rel(f.Pos()), want, "returns no memory (nil or a value without references)", false)
+		default:
+			r.OK(rule, key, c.Prog.Rel(f.Pos()), want, "loc="+s.RetLoc[0].String()+" reach="+s.RetReach[0].String(), true)
+		}
+	}
+}
+
+func isErrorType(t types.Type) bool {
+	n, ok := t.(*types.Named)
+	return ok && n.Obj().Pkg() == nil && n.Obj().Name() == "error"
 }
 
 // ---------------------------------------------------------------------------------------------
